@@ -541,6 +541,26 @@ func init() {
 			}
 			return TupleV{v, tf.Bool(true)}
 		}
+		// vfFieldElem(v, "Name", i): element i of slice field Name (i < 0: the field itself), boxed
+		ex.intr["vf:vfFieldElem"] = func(ex *Exec, fr *Frame, a []Value) Value {
+			v, t, ok := ex.fieldByName(a[0].(IfaceV), ex.concStr(a[1], "vfFieldElem name"))
+			if !ok {
+				return IfaceV{}
+			}
+			i := int(ex.concInt(a[2], "vfFieldElem index"))
+			if i >= 0 {
+				sl, isS := v.(SliceV)
+				st, isT := t.Underlying().(*types.Slice)
+				if !isS || !isT || i >= sl.len {
+					return IfaceV{}
+				}
+				v, t = copyAgg(sl.arr.v.(*ArrayV).elems[sl.off+i]), st.Elem()
+			}
+			if _, isI := t.Underlying().(*types.Interface); isI {
+				return v
+			}
+			return IfaceV{t: t, v: v}
+		}
 		ex.intr["vf:vfIsNil"] = func(ex *Exec, fr *Frame, a []Value) Value {
 			iv := a[0].(IfaceV)
 			if iv.t == nil {
